@@ -149,7 +149,7 @@ Fixpoint it_snext (i : IT) (ctx : env) (its : itst) (p : nat) (r : reg) : option
   | ISep a sep lo hi lead trail, SCount c =>
       match sep_snext a sep lo hi lead trail ctx c p r with
       | Some (x, c', r') => Some (x, SCount c', r') | None => None end
-  | IRepCfg a lo hi, SCfg c clo chi =>
+  | IRepCfg a lo hi _, SCfg c clo chi =>
       match rep_snext a clo chi ctx c p r with
       | Some (x, c', r') => Some (x, SCfg c' clo chi, r') | None => None end
   | IEnum j, SEnum k js =>
